@@ -514,6 +514,11 @@ func (c *Collection) DropIndex(name string) ([]string, error) {
 
 	// drop single index
 	if name != "" {
+		// the _id index cannot be dropped
+		if name == "_id_" {
+			return nil, fmt.Errorf("cannot drop _id index")
+		}
+
 		// check existence
 		if _, ok := c.Indexes[name]; !ok {
 			return nil, fmt.Errorf("missing index %q", name)
